@@ -40,12 +40,14 @@ cannot be computed") and `?:` (condition + selected branch) — the operator tab
 shared with the model (it *is* the documented three-valued table).  The reference evaluates the
 *source* expression: the compiler's constant-folding annotations (`Expr.fold`) are ignored
 (`evalR` looks through them), which is why R is only a lower bound on knowledge for folded
-definitions (D8) and the refinement theorem is stated for fold-free ones.
+definitions (D8) and the refinement theorem is stated for definitions whose annotations are
+closed constants (`foldFree`; in particular fold-free ones).
 
 The size of a structure is `ViewSpec.size` (Spec/View.lean) over the extents R defines
 (`C01_size_is_max_end` relates the synthesised `$size_in_bytes` to it for every environment).
 -/
 import Emboss.Model.View
+import Emboss.Model.Synth
 import Emboss.Spec.Scalar
 namespace Emboss.ViewRef
 open Emboss.View
@@ -249,15 +251,14 @@ inductive RFact (m : Module) : SView → Fact → Prop
 
 /-! ### the fragment -/
 
-mutual
-  def foldFree : Expr → Bool
-    | .fold _ _ => false
-    | .op _ args => foldFreeList args
-    | _ => true
-  def foldFreeList : Exprs → Bool
-    | .nil => true
-    | .cons e es => foldFree e && foldFreeList es
-end
+/-- Every constant-folding annotation in the expression is a *closed constant*
+(`closedFolds`, Model/Synth.lean): the annotated node's source expression evaluates to the
+annotated literal in the environment that knows nothing — so the annotation cannot know more than
+the source expression, and `evalR` (which looks through annotations) and the generated code (which
+uses the literal) agree.  In particular: expressions without annotations. -/
+def foldFree (e : Expr) : Bool := closedFolds e
+
+def foldFreeList (es : Exprs) : Bool := closedFoldsList es
 
 def foldFreeOpt : Option Expr → Bool
   | none => true
@@ -287,7 +288,7 @@ bits): a scalar of a kind R decodes, with `[requires]`; a field of structure or 
 location expressions; a `bits` type in a byte structure has its fixed size); an array of such
 scalars in a byte structure (element size = size of the type; arrays inside `bits` cannot be
 instantiated in C++ — side finding of round 1 — and are outside); a virtual field; an alias.  All expressions free of
-folding annotations. -/
+folding annotations other than closed constants. -/
 def refField (m : Module) (unit : Nat) (f : Field) : Bool :=
   foldFree f.cond &&
   match f.kind with
